@@ -54,8 +54,8 @@ def pWidth : P Width := fun cs => do
 
 partial def pItem : P Item := fun cs =>
   match cs with
-  | 'u' :: r => do let (w, r) ← pWidth r; let (_, r) ← pChar '(' r; let (v, r) ← pNum r; let (_, r) ← pChar ')' r; some (.uint w v, r)
-  | 'n' :: r => do let (w, r) ← pWidth r; let (_, r) ← pChar '(' r; let (v, r) ← pNum r; let (_, r) ← pChar ')' r; some (.negint w v, r)
+  | 'u' :: r => do let (w, r) ← pWidth r; let r := skipBang r; let (_, r) ← pChar '(' r; let (v, r) ← pNum r; let (_, r) ← pChar ')' r; some (.uint w v, r)
+  | 'n' :: r => do let (w, r) ← pWidth r; let r := skipBang r; let (_, r) ← pChar '(' r; let (v, r) ← pNum r; let (_, r) ← pChar ')' r; some (.negint w v, r)
   | 'b' :: r => do let (_, r) ← pChar '(' r; let (b, r) ← pStr r; let (_, r) ← pChar ')' r; some (.bytes b, r)
   | 't' :: r => do let (_, r) ← pChar '(' r; let (b, r) ← pStr r; let (_, r) ← pChar ')' r; some (.text b, r)
   | 'R' :: '(' :: r => do   -- a tag re-pointed from its first item to its second: denotes the tag around the second
@@ -70,12 +70,18 @@ partial def pItem : P Item := fun cs =>
   | 'M' :: '[' :: r => do let (xs, r) ← pPairs r []; some (.map xs, r)
   | 'm' :: '[' :: r => do let (xs, r) ← pPairs r []; some (.mapI xs, r)
   | 'G' :: '(' :: r => do let (n, r) ← pNum r; let (_, r) ← pChar ',' r; let (x, r) ← pItem r; let (_, r) ← pChar ')' r; some (.tag n x, r)
+  | 'c' :: '!' :: '(' :: r => do let (v, r) ← pNum r; let (_, r) ← pChar ')' r; some (.simple v, r)
+  | 'h' :: '!' :: '(' :: r => do let (v, r) ← pNum r; let (_, r) ← pChar ')' r; some (.half v, r)
+  | 's' :: '!' :: '(' :: r => do let (v, r) ← pNum r; let (_, r) ← pChar ')' r; some (.single v, r)
+  | 'd' :: '!' :: '(' :: r => do let (v, r) ← pNum r; let (_, r) ← pChar ')' r; some (.double v, r)
   | 'c' :: '(' :: r => do let (v, r) ← pNum r; let (_, r) ← pChar ')' r; some (.simple v, r)
   | 'h' :: '(' :: r => do let (v, r) ← pNum r; let (_, r) ← pChar ')' r; some (.half v, r)
   | 's' :: '(' :: r => do let (v, r) ← pNum r; let (_, r) ← pChar ')' r; some (.single v, r)
   | 'd' :: '(' :: r => do let (v, r) ← pNum r; let (_, r) ← pChar ')' r; some (.double v, r)
   | _ => none
 where
+  /-- `!` after a leaf kind: built through `cbor_new_*` + `cbor_set_*` instead of `cbor_build_*` (same value) -/
+  skipBang (cs : List Char) : List Char := match cs with | '!' :: r => r | _ => cs
   /-- `hex` or `hex1>hex2` (handle set twice in place: denotes the second content) -/
   pStr (cs : List Char) : Option (List UInt8 × List Char) := do
     let (b, r) ← pHexBytes cs
